@@ -2,8 +2,9 @@
    Only pinned statements, [exact] proofs and [Print Assumptions].
    [path_fields t p]: the (width, index) fields along the index path p of the schema t (width =
    bits_for(sibling count - 1)); [word_of fs]: the MSB-aligned word holding these fields. *)
-From Coq Require Import List NArith ZArith Lia.
-From MC Require Import Str Packed Packed_proofs Tree Tree_proofs NoPanic Transcode_proofs Meta_proofs Packed_tree.
+From Coq Require Import List NArith ZArith Lia Sorted.
+From MC Require Import Str Packed Packed_proofs Tree Tree_proofs NoPanic Transcode_proofs Meta_proofs Packed_tree Iter_proofs Order_proofs.
+From MC Require Odometer.
 Import ListNotations.
 Local Open Scope Z_scope.
 
@@ -36,6 +37,16 @@ Theorem C09_packed_order : forall t p q fs gs, wf t -> narrow t ->
   plt p q -> word_of fs < word_of gs.
 Proof. exact packed_order. Qed.
 
+(* ordered like iteration: along the enumeration that NodeIter yields (C03_iter_complete), for any
+   depth limit, the packed keys increase strictly: any node yielded earlier has the smaller key *)
+Theorem C09_key_lt_unfold : forall t p q, key_lt t p q <->
+  (forall fs gs, path_fields t p = Some fs -> path_fields t q = Some gs ->
+     total fs <= 63 -> total gs <= 63 -> word_of fs < word_of gs).
+Proof. intros. apply iff_refl. Qed.
+Theorem C09_iteration_keys_increase : forall t D, NoPanic.wf t -> narrow t ->
+  StronglySorted (key_lt t) (Odometer.enum D (shape_of t)).
+Proof. exact iteration_keys_increase. Qed.
+
 (* no key uses more bits than Metadata.max_bits *)
 Theorem C09_packed_bound : forall t p fs, wf t -> path_fields t p = Some fs -> total fs <= Z.of_N (m_bits (metadata t)).
 Proof. exact packed_bound. Qed.
@@ -59,5 +70,7 @@ Print Assumptions C09_calls_are_path_fields.
 Print Assumptions C09_packed_decodes.
 Print Assumptions C09_packed_injective.
 Print Assumptions C09_packed_order.
+Print Assumptions C09_key_lt_unfold.
+Print Assumptions C09_iteration_keys_increase.
 Print Assumptions C09_packed_bound.
 Print Assumptions C09_packed_stable.
